@@ -5,7 +5,7 @@ import unicodedata
 
 from lib import hx, unhx
 
-from props.c08 import NETS, NAMES, GRS, _quiet, show_info, th, text_of
+from props.c08 import NETS, NAMES, GRS, _quiet, show_info, th, text_of, _history, gen_history
 
 from pycoin.encoding.b58 import b2a_hashed_base58, a2b_hashed_base58, b2a_base58
 from pycoin.contrib import bech32m
@@ -89,6 +89,8 @@ def impl(op: str) -> str:
             if r[1] is not None:
                 acc.append(e)
         return "ok " + (",".join(acc) if acc else "~")
+    if a[0] == "c18history":
+        return _history(text_of(a[1]), a[2], fresh=False)
     if a[0] == "c18mulg":
         pt = int(a[1]) * NETS["btc"].generator
         return "ok %d %d" % (pt[0], pt[1])
@@ -174,6 +176,13 @@ def same_text(net, o, text, entry):
 
 def _oracle(op: str, out: str):
     a = op.split(" ")
+    if a[0] == "c18history":
+        want = _history(text_of(a[1]), a[2], fresh=True)
+        if want != out:
+            got, exp = out[3:].split(" | "), want[3:].split(" | ")
+            i = next((j for j in range(min(len(got), len(exp))) if got[j] != exp[j]), 0)
+            return "a parser's answer on a shared parseable_str differs from its answer on a fresh string (call %d of %s)" % (i + 1, a[2])
+        return None
     if out.startswith("err"):
         return "exception escapes the parser: %s" % out[4:]
     if a[0] == "c18kinds":
@@ -406,6 +415,8 @@ def _gen(ctx, emit):
             emit("c18parse btc %s %s" % (e, th(t)))
     emit("c18parse xtn electrum_seed %s" % th("E:ffffffffffffffffffffffffffffffff"))
 
+    # 6. one parseable_str object through several networks' parsers (every family of entry point)
+    gen_history(ctx, emit, "c18history", ["address", "payable", "call", "wif", "private_key", "secret", "bip32", "bip32_prv", "hierarchical_key", "p2sh", "public_key"])
     # 5. script text (compile) and unicode noise
     scripts = ["", " ", "OP_DUP OP_HASH160 %s OP_EQUALVERIFY OP_CHECKSIG" % rb(20).hex(), "OP_0 %s" % rb(20).hex(), "OP_1 %s" % rb(32).hex(), "op_dup", "OP_dup", "DUP",
                "dup", "1ADD", "1add", "OP_1add", "1 2 ADD", "[ab] 'hi' 0x4c 99", "[zz]", "[", "]", "[]", "''", "'", "'a b'", "0x", "0xzz", "0X01", "-1", "-0", "17", "016", "1_6",
